@@ -269,6 +269,7 @@ type access struct {
 	call *ast.CallExpr // the decoder / digest call consuming e, if any
 	kind string        // ver-lo ver-hi ver-slice crc-slice covered bad unknown other
 	desc string
+	role string // what consumes the piece (ver-slice crc-slice covered), also when kind is bad / unknown
 }
 
 // accesses classifies the reads of the payload by the ROLE they play (which
@@ -300,7 +301,7 @@ func (v *verif) accesses() []access {
 		}
 		arg := ast.Unparen(call.Args[0])
 		seen[arg] = true
-		ac := access{e: arg, call: call, kind: "unknown", desc: src(arg)}
+		ac := access{e: arg, call: call, kind: "unknown", desc: src(arg), role: role}
 		if r, ok := v.rangeOf(arg); ok {
 			good := map[string]bool{
 				"ver-slice": r.la == 1 && r.lb == -10 && r.ha == 1 && (r.hb == 0 || r.hb == -8),
@@ -559,7 +560,17 @@ func verifier(e *env, fn *core.Fn) {
 		f, _ := o.(*types.Func)
 		return e.isDigest(f) || e.isNew(f)
 	})
+	var badCover *access
+	for i, a := range kinds["bad"] {
+		if a.role == "covered" {
+			badCover = &kinds["bad"][i]
+		}
+	}
 	switch s := kinds["covered"]; {
+	case badCover != nil:
+		// (also reported under offsets; here under the key that stays open when the
+		// range is named in a helper or a field on the tree as written)
+		c.Failf("R3.verify", key("digest-covers"), badCover.e.Pos(), "the CRC must be recomputed over d[:len-8] (payload and version); found %s: the wrong bytes are digested, so intact payloads are rejected or corrupted ones accepted", badCover.desc)
 	case len(s) > 0 && s[0].call != nil:
 		digCall = s[0].call
 		if sc := v.hashObject(s[0].call); sc != nil {
